@@ -9,6 +9,7 @@ import (
 	"io"
 	"sort"
 	"sync"
+	"time"
 
 	"cuelabs.dev/go/oci/ociregistry"
 	"github.com/opencontainers/go-digest"
@@ -220,7 +221,13 @@ func (w *world) exec(ctx context.Context, op Op) (e ev) {
 	case "PushBlob":
 		c := cat.byID[op.C]
 		desc := ociregistry.Descriptor{MediaType: mtOctet, Digest: w.digestOf(op.DD), Size: int64(op.DS)}
-		got, err := reg.PushBlob(ctx, op.R, desc, bytes.NewReader(c.Data))
+		var content io.Reader = bytes.NewReader(c.Data)
+		if op.Chunk == 1 {
+			// slow content: the registry sees the bytes one at a time with pauses in between,
+			// which keeps the call in flight while other goroutines look at the registry
+			content = &slowReader{data: c.Data}
+		}
+		got, err := reg.PushBlob(ctx, op.R, desc, content)
 		observeErr(e, err)
 		if err == nil {
 			w.descFields(e, got)
@@ -468,4 +475,22 @@ func startAt(sorted []string, pos int) string {
 		return sorted[i-1] + "0"
 	}
 	return sorted[len(sorted)-1] + "~~"
+}
+
+type slowReader struct {
+	data []byte
+	n    int
+}
+
+func (r *slowReader) Read(p []byte) (int, error) {
+	time.Sleep(300 * time.Microsecond)
+	if r.n >= len(r.data) {
+		return 0, io.EOF
+	}
+	if len(p) == 0 {
+		return 0, nil
+	}
+	p[0] = r.data[r.n]
+	r.n++
+	return 1, nil
 }
